@@ -20,10 +20,10 @@ type LockInfo struct {
 
 // LockOp is one Lock/Unlock call site.
 type LockOp struct {
-	Instr  ssa.Instruction
-	Lock   string
-	Op     string // "Lock", "Unlock", "RLock", "RUnlock"
-	Defer  bool
+	Instr ssa.Instruction
+	Lock  string
+	Op    string // "Lock", "Unlock", "RLock", "RUnlock"
+	Defer bool
 }
 
 var lockMethods = map[string]string{
